@@ -140,7 +140,11 @@ func (s *scopedWalker) walkFn(path string, d fs.DirEntry, err error) error {
 	if opts.DebugGTE(rsyncopts.DEBUG_FLIST, 1) {
 		logger.Printf("Trim(path=%q) = %q", path, name)
 	}
-	if path == "." {
+	if s.strip != "" && path+string(os.PathSeparator) == s.strip {
+		// the requested directory itself (contents requested with a trailing slash)
+		name = "."
+	}
+	if name == "." {
 		flags |= rsync.XMIT_TOP_DIR
 	}
 	// st.logger.Printf("flags for %q: %v", name, flags)
